@@ -302,7 +302,7 @@ def check_consume(cfg, w, rep, lf):
 
     def is_consume(o):
         return o.kind == "call" and o.term is ct and o.path in ((), (("await",),))
-    gates = try_gates(prog, body, is_consume)
+    gates = try_gates(prog, body, is_consume) + match_gates(prog, body, is_consume, "Ok")
     bad = unreachable_without(prog, body, gates, [blk.i for blk, _, _ in pubs])
     if bad or not gates:
         rep.violation("b-consume-order:%s" % key, "commit `%s` can finalise the digest and create the symlink without having drained the target (`%s`)" % (short(lf.path), short(cg.path)),
